@@ -17,7 +17,10 @@ LEVEL_TEXT = ("AuthExt.tla states the two iff-formulas (http: excluded or a POST
               "evaluates the statement on every observed record; JwksCache.tla models the authority's changing key set and "
               "the manager's JWKS cache (rotation, endpoint failures, cache period, RefreshJWTJWKS): exhaustive MC, every edge "
               "of its state graph walked on ONE real Manager against a local JWKS endpoint (time passes by ageing "
-              "jwksLastRefresh in-package), decisions judged by TLC from the endpoint's download log")
+              "jwksLastRefresh in-package), decisions judged by TLC from the endpoint's download log; JwksConc.tla adds concurrency (downloads that "
+              "take time, overlapping calls, RefreshJWTJWKS and rotation in between): its schedules run on the real Manager "
+              "against an endpoint that holds every download, goroutine states are observed (returned / handler reached / "
+              "parked on the mutex by stack dump), decisions judged by TLC from the time-stamped event log")
 LEVEL_NOTE = ("signature/expiry verification is an atom fixed by the token class (third-party jwt library); open points of "
               "the statement (token+jwt both present, repeated parameter, MoQ as HTTP protocol, query tokens with the "
               "http method, tokens without exp) accept either answer; reported user / AskCredentials are not part of "
